@@ -50,11 +50,16 @@ def travSpec (ex : Val) : String :=
   | .stk _ _ (x :: _) => if x.isNil then "N:0" else s!"{short x}:1"
   | _ => "N:0"
 
+/-- in which form a Stack / Condition is held (harness `formTag`) -/
+def formTag : Val → String
+  | .stk f _ _ | .cnd f _ _ _ _ => match f with | .native => ":n" | .alias => ":a" | .aliasS => ":as" | .ptr => ":p"
+  | _ => ""
+
 def obsCnd (c : Cnd) : String :=
-  s!"K{hx c.kw} O{Op.str c.op} X{short c.ex} V{b01 (c.valid closures).isNone} R{b01 c.cfg.err.isSome} N{b01 c.CanNest} G{b01 c.IsNesting} S{hx (c.string closures)} T{travCnd c}"
+  s!"K{hx c.kw} O{Op.str c.op} X{short c.ex}{formTag c.ex} V{b01 (c.valid closures).isNone} R{b01 c.cfg.err.isSome} N{b01 c.CanNest} G{b01 c.IsNesting} S{hx (c.string closures)} T{travCnd c}"
 
 def obsCSpec (s : CondSpec.St) : String :=
-  s!"K{hx s.kw} O{Op.str s.op} X{short s.ex} V{b01 (CondSpec.valid closures s)} R{b01 s.err} N{b01 (!s.nnest)} G{b01 s.ex.isStack} S{hx (CondSpec.string closures s)} T{travSpec s.ex}"
+  s!"K{hx s.kw} O{Op.str s.op} X{short s.ex}{formTag s.ex} V{b01 (CondSpec.valid closures s)} R{b01 s.err} N{b01 (!s.nnest)} G{b01 s.ex.isStack} S{hx (CondSpec.string closures s)} T{travSpec s.ex}"
 
 /-- what a zero-valued Condition (never initialised, or released with `Free`) answers -/
 def obsZero : String := "K- O- XN V0 R0 N0 G0 S- TN:0"
